@@ -1239,6 +1239,25 @@ def r08_5(prog, rep, rid='R08.5', sweep=False):
                     'is not reported CANCELED and is later started')
 
 
+_WPF = {}
+
+
+def _waitpool_funcs(prog):
+    """methods of the agent scheduler classes that mention the wait pool"""
+    if id(prog) not in _WPF:
+        _WPF.clear()
+        sb = prog.cls(*SBASE)
+        funcs = []
+        for k in [sb] + [c for c in prog.subclasses(sb, strict=True)]:
+            for f in k.methods.values():
+                if f not in funcs and any(
+                        isinstance(x, ast.Attribute) and x.attr == '_waitpool'
+                        for x in ast.walk(f.node)):
+                    funcs.append(f)
+        _WPF[id(prog)] = (prog, funcs)
+    return _WPF[id(prog)][1]
+
+
 # ------------------------------------------------------------------------------
 # R08.6  a task that enters the wait pool is checked against the cancel list
 #
@@ -1408,12 +1427,7 @@ def r08_6(prog, rep, rid='R08.6'):
              'the cancel list (is_canceled) on every path - whatever else '
              'happened in that call - and is taken out again when the answer '
              'is true', minimum=1)
-    sb = prog.cls(*SBASE)
-    funcs = []
-    for k in [sb] + [c for c in prog.subclasses(sb, strict=True)]:
-        for f in k.methods.values():
-            if f not in funcs and '_waitpool' in unparse(f.node):
-                funcs.append(f)
+    funcs = _waitpool_funcs(prog)
     hist = ('the nodes are full.  The cancel request for a task that is still '
             'on its way to the scheduler process is pulled from the queue in '
             'one call of _schedule_incoming (the task is not in the wait pool '
@@ -1720,12 +1734,7 @@ def r08_9(prog, rep, rid='R08.9'):
              '(`del self._waitpool[p][uid]`, `.pop(uid)`); no statement drops '
              'a whole priority level with everything that waits in it',
              minimum=1)
-    sb = prog.cls(*SBASE)
-    funcs = []
-    for k in [sb] + [c for c in prog.subclasses(sb, strict=True)]:
-        for f in k.methods.values():
-            if f not in funcs and '_waitpool' in unparse(f.node):
-                funcs.append(f)
+    funcs = _waitpool_funcs(prog)
     hist = ('cancel request naming one waiting task: every task that waits '
             'at the same priority disappears from the wait pool with it - '
             'the bystanders are never placed and never get a final state')
@@ -1837,6 +1846,112 @@ def r08_10(prog, rep, rid='R08.10'):
 
 
 # ------------------------------------------------------------------------------
+# R08.11  a search through the wait pool that stops early looks for one uid
+#
+def _over_pool_levels(e):
+    """expression iterates the priority levels of the wait pool"""
+    while isinstance(e, ast.Call) and dotted(e.func) in (
+            'sorted', 'list', 'reversed', 'tuple', 'iter') and e.args:
+        e = e.args[0]
+    if isinstance(e, ast.Call) and isinstance(e.func, ast.Attribute) and \
+            e.func.attr in ('keys', 'values', 'items') and not e.args:
+        e = e.func.value
+    return unparse(e) == POOL
+
+
+def r08_11(prog, rep, rid='R08.11'):
+    rep.rule(rid, 'a loop over the priority levels of the wait pool that '
+             'removes entries and can be left early searches for a single '
+             'uid (bound outside of the loop): a loop that serves several '
+             'named tasks at once visits every level', minimum=1)
+    funcs = _waitpool_funcs(prog)
+    for f in funcs:
+        g = cfg_of(f)
+        smap = I.stmt_node_map(g)
+        pools = _pool_names(f)
+        for H in g.nodes:
+            if H.kind != 'for' or not _over_pool_levels(H.ast.iter):
+                continue
+            body = g.loop_body[H.id]
+            exits = [e for nid in body for e in g.succ[nid]
+                     if e.label in NORMAL and e.dst not in body and
+                     e.dst != H.id]
+            # entries removed inside the loop, and the names their keys use
+            keys = []
+            for x in walk(H.ast):
+                k = None
+                if isinstance(x, ast.Delete):
+                    for t in x.targets:
+                        if isinstance(t, ast.Subscript) and \
+                                _is_pool_level(t.value, pools):
+                            k = t.slice
+                elif isinstance(x, ast.Call) and \
+                        isinstance(x.func, ast.Attribute) and \
+                        x.func.attr == 'pop' and x.args and \
+                        _is_pool_level(x.func.value, pools):
+                    k = x.args[0]
+                if k is not None:
+                    keys.append((x, k))
+            if not exits or not keys:
+                continue
+            rep.saw(f)
+            # names (re-)bound inside the loop: by statements, inner loops or
+            # comprehensions
+            inner = set()
+            for x in walk(H.ast, nested=True):
+                if x is H.ast:
+                    continue
+                if isinstance(x, (ast.For, ast.comprehension)):
+                    inner |= set(stores_in_target(x.target))
+                elif isinstance(x, ast.Assign):
+                    for t in x.targets:
+                        inner |= set(stores_in_target(t))
+                elif isinstance(x, (ast.AnnAssign, ast.NamedExpr)):
+                    inner |= set(stores_in_target(x.target))
+            multi = [(x, k) for x, k in keys
+                     if not names_in(k) or names_in(k) & inner]
+            if multi:
+                # does leaving the loop depend on progress made across the
+                # levels (a set of uids still to be found, ..)?  Then this
+                # rule cannot tell whether the exit is premature
+                carried = set()
+                for x in walk(H.ast, nested=True):
+                    if isinstance(x, ast.AugAssign):
+                        carried |= set(stores_in_target(x.target))
+                    elif isinstance(x, ast.Call) and \
+                            isinstance(x.func, ast.Attribute) and \
+                            isinstance(x.func.value, ast.Name) and \
+                            x.func.attr in ('remove', 'discard', 'pop', 'add',
+                                            'append', 'extend', 'update',
+                                            'difference_update', 'clear'):
+                        carried.add(x.func.value.id)
+                carried -= inner           # fresh in every iteration
+                start = loop_slice(g, H.id)[0]
+                for e in exits:
+                    for t, lab in guards(g, e.src, start=start, within=body):
+                        if reads_through_defs(g, g.nodes[t].ast, g.nodes[t]) \
+                                & carried:
+                            raise AnalysisError(
+                                'UNRECOGNISED-IDIOM %s: early exit from the '
+                                'loop over the wait pool levels depends on '
+                                '`%s`' % (f.where,
+                                          short(g.nodes[t].ast, 40)))
+            x0 = multi[0][0] if multi else keys[0][0]
+            rep.check(not multi, rid, f, 'loop over the wait pool levels at '
+                      'line %d: left early only while searching for one uid'
+                      % H.ast.lineno, construct=H.ast.iter,
+                      message='%s removes several entries per priority level '
+                      '(`%s`) in a loop over the levels of the wait pool which '
+                      'it leaves early: named tasks that wait at the levels '
+                      'not visited stay in the pool' % (f.qual, short(x0, 50)),
+                      loc=f.loc(x0),
+                      history='cancel request naming two waiting tasks of '
+                      'different priority: only the first level that holds '
+                      'one of them is searched; the other task stays in the '
+                      'wait pool, is placed later and runs')
+
+
+# ------------------------------------------------------------------------------
 #
 def run(prog, rep, tier):
     rep.decided = ("the cancel list grows only by arg['uids'] of cancel_tasks "
@@ -1860,7 +1975,9 @@ def run(prog, rep, tier):
         "is_canceled.  R08.8: a single uid given as a string is wrapped, not "
         "iterated, where requests are normalised.  R08.9: nothing drops a "
         "whole priority level of the wait pool.  R08.10: the result of "
-        "poll() is compared with None, not tested for truth.")
+        "poll() is compared with None, not tested for truth.  R08.11: a "
+        "loop over the wait pool levels that removes entries and can be left "
+        "early searches for one uid only.")
     rep.undecided = ('delivery timing of the request relative to the task '
         '(covered per stage by the rules above, not as a global history); '
         'whether os.killpg reaches the task processes (process groups).')
@@ -1875,6 +1992,7 @@ def run(prog, rep, tier):
     rep.attempt(r08_8, prog, rep)
     rep.attempt(r08_9, prog, rep)
     rep.attempt(r08_10, prog, rep)
+    rep.attempt(r08_11, prog, rep)
     from .c04 import r04_5
     rep.attempt(r04_5, prog, rep, rid='R04.5')
     from .c07 import r07_2, r07_7
@@ -1907,6 +2025,7 @@ _FLT = "                    if self._cancel_list:\n                        thing
 _NRM = "            if not isinstance(uids, list):\n                uids = [uids]\n"
 _RAP = "                for queue in self._raptor_tasks:\n                    matches = [t for t in self._raptor_tasks[queue]\n                                       if t['uid'] in uids]\n                    for task in matches:\n                        to_cancel.append(task)\n                        self._raptor_tasks[queue].remove(task)\n"
 _ARB = "        with self._check_lock:\n            if tid not in self._tasks:\n                return\n            try:\n                del self._tasks[tid]\n            except KeyError:\n                pass\n"
+_CBR = "                    for uid in data:\n                        for priority in self._waitpool:\n                            task = self._waitpool[priority].get(uid)\n                            if task:\n                                to_cancel.append(task)\n                                del self._waitpool[priority][uid]\n                                break\n"
 
 MUTATIONS = [
     dict(name='R08.1 cancel list extended for every command', rules=('R08.1',), edits=[
@@ -2045,6 +2164,10 @@ MUTATIONS = [
         (_S, _RAP, "                for queue in self._raptor_tasks:\n                    backlog = self._raptor_tasks[queue]\n                    backlog[:] = [t for t in backlog if t['uid'] not in uids]\n                    to_cancel += [t for t in backlog if t['uid'] in uids]\n")]),
     dict(name='R08.1 raptor backlog overwritten by the selection', rules=('R08.1',), edits=[
         (_S, _RAP, "                for queue in self._raptor_tasks:\n                    backlog = self._raptor_tasks[queue]\n                    to_cancel += [t for t in backlog if t['uid'] in uids]\n                    backlog[:] = [t for t in backlog if t['uid'] in uids]\n")]),
+    dict(name='R08.11 wait pool search for several uids stops at the first level with a hit (seed C08-c)', rules=('R08.11',), edits=[
+        (_S, _CBR, "                    uids      = set(data)\n                    for priority in self._waitpool:\n                        pool = self._waitpool[priority]\n                        hits = uids.intersection(pool)\n                        if hits:\n                            to_cancel += [pool.pop(uid) for uid in hits]\n                            break\n")]),
+    dict(name='R08.11 same with an explicit inner loop', rules=('R08.11',), edits=[
+        (_S, _CBR, "                    for priority in self._waitpool:\n                        pool = self._waitpool[priority]\n                        found = [u for u in data if u in pool]\n                        for u in found:\n                            to_cancel.append(pool.pop(u))\n                        if found:\n                            break\n")]),
 ]
 
 SILENT = [
@@ -2139,4 +2262,11 @@ SILENT = [
         (_P, _ARB, "        with self._check_lock:\n            if tid not in self._tasks:\n                return\n            self._tasks.pop(tid, None)\n")]),
     dict(name='cancel_task: unschedule publication before the bookkeeping', edits=[
         (_P, "        task['exit_code']    = None\n        task['target_state'] = rps.CANCELED\n\n        self._prof.prof('task_run_cancel_stop', uid=tid)\n        self._prof.prof('unschedule_start', uid=tid)\n        self.publish(rpc.AGENT_UNSCHEDULE_PUBSUB, task)\n", "        self._prof.prof('task_run_cancel_stop', uid=tid)\n        self._prof.prof('unschedule_start', uid=tid)\n        self.publish(rpc.AGENT_UNSCHEDULE_PUBSUB, task)\n        task['target_state'] = rps.CANCELED\n        task['exit_code']    = None\n")]),
+    dict(name='wait pool search per uid over the level dicts, pop', edits=[
+        (_S, _CBR, "                    for uid in data:\n                        for pool in self._waitpool.values():\n                            if uid in pool:\n                                to_cancel.append(pool.pop(uid))\n                                break\n")]),
+    dict(name='wait pool search per uid in a helper that returns early', edits=[
+        (_S, _CBR, "                    for uid in data:\n                        task = self._pull_waiting(uid)\n                        if task is not None:\n                            to_cancel.append(task)\n"),
+        (_S, "    def _schedule_incoming(self):\n", "    def _pull_waiting(self, uid):\n        for pool in self._waitpool.values():\n            if uid in pool:\n                return pool.pop(uid)\n        return None\n\n    def _schedule_incoming(self):\n")]),
+    dict(name='wait pool search per uid over sorted levels, guard as early continue', edits=[
+        (_S, _CBR, "                    for uid in data:\n                        for priority in sorted(self._waitpool):\n                            task = self._waitpool[priority].get(uid)\n                            if not task:\n                                continue\n                            to_cancel.append(task)\n                            del self._waitpool[priority][uid]\n                            break\n")]),
 ]
